@@ -90,8 +90,10 @@ EstOK(p, n, est) ==
     /\ est >= 0 /\ n >= 0
     /\ d <= 4 * n + 8
     /\ (p >= 8 => d <= n + 8)
-    /\ d * Sqrt10[p] <= ((KMult(p) * 104 * n) \div 10) + (2 + ((n + 31) \div 32)) * Sqrt10[p]
-    /\ (10 * n <= 2 ^ p => d * Sqrt10[p] <= 60 * n + 2 * Sqrt10[p])
+    \* d * S <= R  <=>  d <= R \div S for naturals: written without a product of d so that a wildly wrong
+    \* estimate is a disabled step, not a 32-bit overflow inside TLC
+    /\ d <= (((KMult(p) * 104 * n) \div 10) + (2 + ((n + 31) \div 32)) * Sqrt10[p]) \div Sqrt10[p]
+    /\ (10 * n <= 2 ^ p => d <= (60 * n + 2 * Sqrt10[p]) \div Sqrt10[p])
     /\ (n = 0 => est = 0)
 
 (***************************************************************************)
